@@ -40,6 +40,8 @@ GEN = {
     # structure elements that refer to sibling elements (bit definitions): the reference is a symbol like any other
     'g_structbits': '\tcpu h8/300\nflags\tstruct\nbyte1\tds.b 1\nbyte2\tds.b 1\nrdy\tbit 0,byte1\nerr\tbit 3,byte2\nflags\tendstruct\n\torg $ff10\ninst\tflags\n\torg $100\n\tbset inst_rdy\n\tbclr inst_err\n\tmov.b @inst_byte2,r0l\n',
     # every repetition construct nested in a body (the macro wrapper nests them once more)
+    # named symbol stacks: the stack's name is a name like any other (letter case irrelevant unless -U)
+    'g_stacks': '\tcpu z80\nval\tset 1\noth\tset 2\n\tpushv MYSTK,val\n\tpushv Other,oth\nval\tset 5\noth\tset 6\n\tdb val,oth\n\tpopv Other,oth\n\tdb val,oth\n\tpopv MYSTK,val\n\tdb val,oth\n',
     'g_repeats': '\tcpu z80\n\tdb 1\n\tirpn 2,x,y,1,2,3,4\n\tdb x,y\n\tendm\n\tirpc c,"ab"\n\tdb \'c\'\n\tendm\n\trept 2\n\tirpn 1,q,5,6\n\tdb q\n\tendm\n\tendm\n\tirp z,7,8\n\tirpc d,"12"\n\tdb z,d\n\tendm\n\tendm\n\tdb 9\n',
 }
 
@@ -157,6 +159,9 @@ def defined_symbols(text):
     for l in text.split('\n'):
         code, _ = split_code(l)
         m = re.match(r'^([A-Za-z_][A-Za-z0-9_]*):?(\s|$)', code)
+        if m:
+            s.add(m.group(1).lower())
+        m = re.match(r'^\s+(?:pushv|popv)\s+([A-Za-z_][A-Za-z0-9_]*)\s*,', code, re.I)      # the name of a symbol stack
         if m:
             s.add(m.group(1).lower())
     # names that double as register / mnemonic-like tokens are not flipped
